@@ -87,6 +87,10 @@ def _gen_frame(rng: random.Random, grid: dict, nmax: int) -> dict:
                     drops.append({"cls": "DiffuseDroplet", "position": [0.0, 0.0, z],
                                   "radius": r, "interface_width": rng.choice([None, 1.0])})
                     break
+    if drops and rng.random() < 0.25:
+        # droplets of different composition: every droplet has its own plateau intensity
+        for d in drops:
+            d["intensity"] = rng.choice([0.75, 1.0, 1.25, 1.5, 2.0])
     frame = {"grid": grid, "droplets": drops}
     # (noise only on frames with droplets: a noise-only frame under a data-dependent threshold
     # is hundreds of one-cell candidates, each of them a least-squares fit per schedule)
@@ -102,15 +106,33 @@ def _gen_options(rng: random.Random, grid: dict) -> dict:
     opts: dict = {"threshold": rng.choice([0.5, 0.5, 0.5, "auto", "extrema", "mean", "otsu",
                                            0.4, 0.625]),
                   "minimal_radius": rng.choice([0, 0, 0, 0.5, 1.0, 2.0])}
-    ra = rng.choice([None, None, {}, {"vmin": None, "vmax": None}, {"adjust_values": True},
-                     {"tolerance": 1e-3}, {"tolerance": 1e-2, "vmin": None},
-                     {"least_squares_params": {"max_nfev": 12}},
-                     {"least_squares_params": {"max_nfev": 3}},
-                     {"least_squares_params": {"xtol": 1e-2, "ftol": 1e-2}},
-                     {"least_squares_params": {"loss": "soft_l1"}, "vmin": None},
-                     {"least_squares_params": {"method": "dogbox"}},
-                     {"least_squares_params": {"method": "dogbox", "max_nfev": 20}, "vmax": None},
-                     {"least_squares_params": {"method": "trf", "x_scale": "jac"}}])
+    lsp_choices = [{}, {"max_nfev": 12}, {"max_nfev": 3}, {"xtol": 1e-2, "ftol": 1e-2},
+                   {"loss": "soft_l1"}, {"method": "dogbox"}, {"method": "dogbox", "max_nfev": 20},
+                   {"method": "trf", "x_scale": "jac"}]
+    if rng.random() < 0.5:
+        ra = rng.choice([None, None, {}, {"vmin": None, "vmax": None}, {"adjust_values": True},
+                         {"tolerance": 1e-3}, {"tolerance": 1e-2, "vmin": None},
+                         {"least_squares_params": {"max_nfev": 12}},
+                         {"least_squares_params": {"max_nfev": 3}},
+                         {"least_squares_params": {"xtol": 1e-2, "ftol": 1e-2}},
+                         {"least_squares_params": {"loss": "soft_l1"}, "vmin": None},
+                         {"least_squares_params": {"method": "dogbox"}},
+                         {"least_squares_params": {"method": "dogbox", "max_nfev": 20}, "vmax": None},
+                         {"least_squares_params": {"method": "trf", "x_scale": "jac"}}])
+    else:
+        # every documented refinement option drawn independently of the others (the options of a
+        # script are a caller-owned dict, possibly empty, possibly holding nested dicts)
+        ra = {}
+        if rng.random() < 0.4:
+            ra["vmin"] = rng.choice([None, None, 0.0])
+        if rng.random() < 0.4:
+            ra["vmax"] = rng.choice([None, None, 1.0])
+        if rng.random() < 0.45:
+            ra["adjust_values"] = rng.choice([True, True, False])
+        if rng.random() < 0.25:
+            ra["tolerance"] = rng.choice([1e-3, 1e-2])
+        if rng.random() < 0.6:
+            ra["least_squares_params"] = rng.choice(lsp_choices)
     opts["refine_args"] = copy.deepcopy(ra)
     modes = 0
     if dim == 2 and grid["kind"] == "cart" and rng.random() < 0.25:
